@@ -15,6 +15,10 @@
                                                   doGetNodeDeployCapacity (req already validated)
      node_capacity / node_capacity_chk            instances
      commit_usage info ws                         usage after SetNodeResourceUsage(workloads, delta, incr)
+     rerr2, realloc_result (mkRR rr_engine rr_delta rr_new), wres_sub (WorkloadResource.Sub)
+     calculate_realloc_g sortf info base maxshare origin rawreq numa_order fuel
+                                                  : outcome (rerr2 + realloc_result)   CalculateRealloc
+     calculate_realloc / calculate_realloc_chk    instances;  realloc_info info origin (node with the origin given back)
 *)
 From Coq Require Import String Ascii List ZArith Bool.
 From Verif Require Import Base.GoInt Base.GoFloat Cpumem.Types Cpumem.Schedule.
@@ -107,3 +111,63 @@ Definition commit_usage (info : node_info) (ws : list wres) : node_info :=
   mkNI (ni_cap info)
        (fold_left (fun u w => nr_add u (mkNR (wr_cpu_req w) (wr_cpumap w) (wr_mem_req w) (wr_numamem w) []))
                   ws (ni_usage info)).
+
+(* ---------- CalculateRealloc ---------- *)
+Inductive rerr2 := RErrInvalidMemory | RErrInvalidCPU | RErrInsufficientResource | RErrInsufficientCapacity.
+Record realloc_result := mkRR { rr_engine : eparams; rr_delta : wres; rr_new : wres }.
+
+(* WorkloadResource.Sub (on a DeepCopy): CPURequest and CPULimit through utils.Round,
+   MemoryRequest, CPUMap, NUMAMemory; MemoryLimit and NUMANode are left alone *)
+Definition wres_sub (w w1 : wres) : wres :=
+  mkWR (f_round9 (fsub (wr_cpu_req w) (wr_cpu_req w1))) (f_round9 (fsub (wr_cpu_lim w) (wr_cpu_lim w1)))
+       (wr_mem_req w - wr_mem_req w1) (wr_mem_lim w)
+       (cpumap_sub (wr_cpumap w) (wr_cpumap w1)) (cpumap_sub (wr_numamem w) (wr_numamem w1)) (wr_numanode w).
+
+Section WithSort.
+Variable sortf : list keyed -> outcome (list keyed).
+
+Definition calculate_realloc_g (info : node_info) (base maxshare : Z) (origin : wres) (raw : wreq)
+   (numa_order : list string) (fuel : nat) : outcome (rerr2 + realloc_result) :=
+  let bind := if rq_keep raw then (match wr_cpumap origin with [] => false | _ => true end) else rq_bind raw in
+  (* put the origin's resources back into the pool *)
+  let info' := mkNI (ni_cap info)
+                    (nr_sub_nofloat (ni_usage info)
+                       (mkNR (wr_cpu_req origin) (wr_cpumap origin) (wr_mem_req origin) (wr_numamem origin) [])) in
+  let newraw := mkReq bind false (fadd (rq_cpu_req raw) (wr_cpu_req origin)) (fadd (rq_cpu_lim raw) (wr_cpu_lim origin))
+                      (rq_mem_req raw + wr_mem_req origin) (rq_mem_lim raw + wr_mem_lim origin) in
+  match wreq_validate newraw with
+  | inl ErrInvalidMemory => Ok (inl RErrInvalidMemory)
+  | inl ErrInvalidCPU => Ok (inl RErrInvalidCPU)
+  | inr req =>
+    let finish (cpumap : smap Z) (nid : string) :=
+      let numamem := match nid with EmptyString => [] | _ => [(nid, rq_mem_req req)] end in
+      let newres := mkWR (rq_cpu_req req) (rq_cpu_lim req) (rq_mem_req req) (rq_mem_lim req) cpumap numamem nid in
+      Ok (inr (mkRR (mkEP (rq_cpu_lim req) cpumap nid (rq_mem_lim req) false) (wres_sub newres origin) newres)) in
+    if bind then
+      do plans <- get_cpu_plans_g sortf info' (wr_cpumap origin) base maxshare req numa_order fuel;
+      match plans with
+      | [] => Ok (inl RErrInsufficientResource)
+      | tp :: _ => finish (snd tp) (fst tp)
+      end
+    else
+      match do_alloc_by_memory info' 1 req with
+      | inl _ => Ok (inl RErrInsufficientCapacity)
+      | inr _ => finish [] EmptyString
+      end
+  end.
+End WithSort.
+
+Definition calculate_realloc := calculate_realloc_g sort_exact.
+Definition calculate_realloc_chk := calculate_realloc_g sort_checked.
+
+(* fuel: the origin's pieces come back into the pool *)
+Definition realloc_info (info : node_info) (origin : wres) : node_info :=
+  mkNI (ni_cap info) (nr_sub_nofloat (ni_usage info)
+     (mkNR (wr_cpu_req origin) (wr_cpumap origin) (wr_mem_req origin) (wr_numamem origin) [])).
+
+
+Definition rerr2_eqb (a b : rerr2) : bool :=
+  match a, b with
+  | RErrInvalidMemory, RErrInvalidMemory | RErrInvalidCPU, RErrInvalidCPU
+  | RErrInsufficientResource, RErrInsufficientResource | RErrInsufficientCapacity, RErrInsufficientCapacity => true
+  | _, _ => false end.
